@@ -760,9 +760,38 @@ def m_floor(interp, x):
     return math.floor(x)
 
 
+_NO_DEFAULT = object()
+
+
+def _extreme_with_key(interp, a, k, op, name):
+    """min/max with key= and/or default= : CPython keeps the FIRST extreme element (strict comparison); every
+    comparison of symbolic keys is decided through the path (forks)"""
+    key = k.pop('key', None)
+    default = k.pop('default', _NO_DEFAULT)
+    if k:
+        raise TypeError(f'{name}() got an unexpected keyword argument')
+    if len(a) == 1:
+        seq = m_list(interp, a[0])
+    else:
+        if default is not _NO_DEFAULT:
+            raise TypeError(f'Cannot specify a default for {name}() with multiple positional arguments')
+        seq = list(a)
+    if not seq:
+        if default is not _NO_DEFAULT:
+            return default
+        raise ValueError(f'{name}() arg is an empty sequence')
+    keys = [interp.call_value(key, [x], {}) if key is not None else x for x in seq]
+    best, kbest = seq[0], keys[0]
+    for x, kx in zip(seq[1:], keys[1:]):
+        better = interp.compare(op, kx, kbest)
+        if interp.truth(better):
+            best, kbest = x, kx
+    return best
+
+
 def m_min(interp, *a, **k):
     if k:
-        raise Unsupported('min with key/default on symbolic')
+        return _extreme_with_key(interp, a, dict(k), ast.Lt(), 'min')
     xs = list(a[0]) if len(a) == 1 else list(a)
     if not has_sym(xs, 1):
         return min(xs)
@@ -774,7 +803,7 @@ def m_min(interp, *a, **k):
 
 def m_max(interp, *a, **k):
     if k:
-        raise Unsupported('max with key/default on symbolic')
+        return _extreme_with_key(interp, a, dict(k), ast.Gt(), 'max')
     xs = list(a[0]) if len(a) == 1 else list(a)
     if not has_sym(xs, 1):
         return max(xs)
